@@ -164,3 +164,28 @@ pub struct MemHandler { pub backend: BackendStub2, pub atomic_mem: AtomicMemStub
 pub fn retain_not_gpa(v: &mut Vec<AddrMapping>, gpa: u64)
     ensures final(v)@ == old(v)@.filter(|m: AddrMapping| m.gpa_base != gpa)
 { unimplemented!() }
+
+// ---------- handler.rs: set_backend_req_fd — a newly attached backend-request channel inherits the negotiated settings (C14)
+pub struct BackendProxyStub { pub reply_ack: bool, pub shared_object: bool, pub shmem: bool }
+impl BackendProxyStub {
+    // vhost::vhost_user::Backend::{set_reply_ack_flag, set_shared_object_flag, set_shmem_flag} (verified in unit `proxy`: set exactly that flag)
+    #[verifier::external_body] pub fn set_reply_ack_flag(&mut self, enable: bool)
+        ensures final(self).reply_ack == enable, final(self).shared_object == old(self).shared_object, final(self).shmem == old(self).shmem { unimplemented!() }
+    #[verifier::external_body] pub fn set_shared_object_flag(&mut self, enable: bool)
+        ensures final(self).shared_object == enable, final(self).reply_ack == old(self).reply_ack, final(self).shmem == old(self).shmem { unimplemented!() }
+    #[verifier::external_body] pub fn set_shmem_flag(&mut self, enable: bool)
+        ensures final(self).shmem == enable, final(self).reply_ack == old(self).reply_ack, final(self).shared_object == old(self).shared_object { unimplemented!() }
+}
+pub struct ProtoFlag { pub bits: u64 }
+pub struct VhostUserProtocolFeatures;
+impl VhostUserProtocolFeatures {
+    pub const REPLY_ACK: ProtoFlag = ProtoFlag { bits: 0x8 };            // values proved-by: c01_flag_tables
+    pub const SHARED_OBJECT: ProtoFlag = ProtoFlag { bits: 0x4_0000 };
+    pub const SHMEM: ProtoFlag = ProtoFlag { bits: 0x20_0000 };
+}
+impl ProtoFlag { pub fn bits(&self) -> (r: u64) ensures r == self.bits { self.bits } }
+pub struct BackendStub3 { pub got: Ghost<Seq<BackendProxyStub>> }
+impl BackendStub3 {
+    #[verifier::external_body] pub fn set_backend_req_fd(&mut self, b: BackendProxyStub) ensures final(self).got@ == old(self).got@.push(b) { unimplemented!() }
+}
+pub struct ReqFdHandler { pub backend: BackendStub3, pub acked_protocol_features: u64 }
